@@ -1624,6 +1624,22 @@ impl ASN1Value {
             } => {
                 if let Some(v) = find_tld_or_enum_value_by_name(identifier, e, tlds) {
                     *self = v;
+                    // the referenced value can itself be a reference to another value
+                    let mut hops = 0;
+                    while let Self::ElsewhereDeclaredValue {
+                        parent: None,
+                        identifier: next,
+                        ..
+                    } = self
+                    {
+                        match find_tld_or_enum_value_by_name(identifier, next, tlds) {
+                            Some(v) if hops < tlds.len() => {
+                                *self = v;
+                                hops += 1;
+                            }
+                            _ => break,
+                        }
+                    }
                 }
             }
             _ => {}
